@@ -397,7 +397,30 @@ def _z3_value(z3, m, v):
     return str(r)
 
 
-def prove_smt(goal, hyps=(), timeout_ms=10000, extra_z3=None, want=None, second_opinion=True):
+def _abstract_apps(formulas):
+    """every uninterpreted application (array element, library result, opaque callee) replaced by a fresh variable of
+    its sort, identical applications by the same variable: a weakening (congruence is dropped), so a proof of the
+    abstraction is a proof of the original; pure NRA/LIA is far more stable for z3 than its combination with UF"""
+    amap = {}
+    for f in formulas:
+        for nd in tm.postorder(f):
+            if nd.op == "app" and len(nd.args) > 1 and nd not in amap:
+                amap[nd] = None
+    # innermost applications first so that nested applications are abstracted as wholes of their abstracted arguments
+    out = {}
+    for nd in sorted(amap, key=tm.size):
+        out[nd] = tm.var(f"_a{len(out)}", nd.sort)
+    return [tm.subst(f, out) for f in formulas]
+
+
+def prove_smt(goal, hyps=(), timeout_ms=10000, extra_z3=None, want=None, second_opinion=True, try_abstract=True):
+    if try_abstract and extra_z3 is None:
+        fs = _abstract_apps([goal] + list(hyps))
+        if fs[0] is not goal or any(a is not b for a, b in zip(fs[1:], hyps)):
+            v = prove_smt(fs[0], fs[1:], timeout_ms=min(3000, max(1000, timeout_ms // 3)), want=None, second_opinion=False, try_abstract=False)
+            if v.status == PROVED:
+                v.detail = (v.detail + " " if v.detail else "") + "(applications abstracted)"
+                return v
     """hyps |= goal ?   UNSAT of hyps ∧ ¬goal -> PROVED; SAT -> REFUTED with the model (values of all
     variables and of the terms in `want` {label: term}); unknown -> second solver -> UNKNOWN."""
     import z3
